@@ -248,7 +248,7 @@ def obligations(tier):
             exp = exp | {(2, 2, 2, 2)}
         cx.check(got == exp, label='control_values.and_product')
 
-    obs.append(Obligation('control_values.or_union', cv_or_body, twin=None, desc='(a | b).expand() == a.expand() U b.expand() for all pairs from a 7-entry menu of ProductOfSums / SumOfProducts on 2 qubits (finite exploration; KNOWN FINDING on the unchanged tree for ProductOfSums | ProductOfSums)'))
+    obs.append(Obligation('control_values.or_union', cv_or_body, twin=None, opts={'stop_on_violation': False}, desc='(a | b).expand() == a.expand() U b.expand() for all pairs from a 7-entry menu of ProductOfSums / SumOfProducts on 2 qubits (finite exploration; KNOWN FINDING on the unchanged tree for ProductOfSums | ProductOfSums)'))
     obs.append(Obligation('control_values.and_product', cv_and_body, twin=lambda cx: cv_and_body(cx, wrong=True), desc='(a & b).expand() is the product of the admitted control states (finite exploration)'))
 
     # ---- 3. phase_by == conjugation by the Z rotation, up to global phase ---------------------------------
@@ -349,7 +349,7 @@ def obligations(tier):
             A, B = cirq.unitary(a), cirq.unitary(b)
             cx.close(A @ B, B @ A, label='commutes.single_qubit_clifford')
 
-    obs.append(Obligation('commutes.single_qubit_clifford', cliff_body, opts={'stop_on_violation': True}, desc='all 576 ordered pairs of single-qubit Clifford gates: commutes True => matrices commute (KNOWN FINDING on the unchanged tree: tableau comparison ignores global phase, e.g. X and Z)'))
+    obs.append(Obligation('commutes.single_qubit_clifford', cliff_body, opts={'stop_on_violation': False}, desc='all 576 ordered pairs of single-qubit Clifford gates: commutes True => matrices commute (KNOWN FINDING on the unchanged tree: tableau comparison ignores global phase, e.g. X and Z)'))
 
     # ---- 5. equality predicates agree with matrices -------------------------------------------------------
     EQ = [('X', cirq.XPowGate, D.X), ('Y', cirq.YPowGate, D.Y), ('Z', cirq.ZPowGate, D.Z), ('H', cirq.HPowGate, D.H), ('CZ', cirq.CZPowGate, D.CZ), ('SWAP', cirq.SwapPowGate, D.SWAP), ('ISWAP', cirq.ISwapPowGate, D.ISWAP), ('ZZ', cirq.ZZPowGate, D.ZZ), ('CCX', cirq.CCXPowGate, D.CCX)]
